@@ -11,6 +11,10 @@ import traceback
 
 VERIF = os.path.dirname(os.path.dirname(os.path.abspath(__file__)))
 sys.path.insert(0, VERIF)
+import logging  # noqa: E402
+import warnings  # noqa: E402
+warnings.filterwarnings("ignore")
+logging.disable(logging.CRITICAL)
 
 from harness import lean_stage as LS  # noqa: E402
 
